@@ -174,13 +174,13 @@ func (p *Program) Cone(roots ...*ssa.Function) map[*ssa.Function]bool {
 		nd := p.CG.Nodes[fn]
 		if nd != nil {
 			for _, e := range nd.Out {
-				if isFuncValueCall(e.Site) {
+				if IsFuncValueCall(e.Site) {
 					// calls through stored function values (txn callbacks, handlers) are where VTA
 					// loses precision; closures are followed lexically via AnonFuncs instead
 					continue
 				}
 				c := e.Callee.Func
-				if !seen[c] && p.ModFns[c] && !shellFunc(c) {
+				if !seen[c] && p.ModFns[c] && !ShellFunc(c) {
 					seen[c] = true
 					stack = append(stack, c)
 				}
@@ -235,7 +235,7 @@ func (p *Program) PathTo(root *ssa.Function, target func(*ssa.Function) bool) []
 		}
 		if nd := p.CG.Nodes[fn]; nd != nil {
 			for _, e := range nd.Out {
-				if isFuncValueCall(e.Site) || shellFunc(e.Callee.Func) {
+				if IsFuncValueCall(e.Site) || ShellFunc(e.Callee.Func) {
 					continue
 				}
 				next(e.Callee.Func)
@@ -259,7 +259,7 @@ func (p *Program) Callers(fn *ssa.Function) []*callgraph.Edge {
 
 // isFuncValueCall reports a dynamic call through a function-typed value (not an interface
 // method, not a static callee, not an immediately applied closure).
-func isFuncValueCall(site ssa.CallInstruction) bool {
+func IsFuncValueCall(site ssa.CallInstruction) bool {
 	if site == nil {
 		return false
 	}
@@ -279,7 +279,7 @@ func isFuncValueCall(site ssa.CallInstruction) bool {
 // inside the engine resolve to them as well; a cone of engine behaviour never enters them.
 var shellPkgs = []string{"tests", "cli", "http", "js", "cbindings", "examples", "playground", "tools", "cmd", "docs", "client/mocks", "internal/datastore/mocks", "internal/db/fetcher/mocks"}
 
-func shellFunc(fn *ssa.Function) bool {
+func ShellFunc(fn *ssa.Function) bool {
 	for fn.Parent() != nil {
 		fn = fn.Parent()
 	}
